@@ -380,7 +380,8 @@ open Lean Elab Command in
     # ------------------------------------------------------------------ evidence + verdict
     def finish(self):
         wall = time.time() - self.t0
-        (ROOT / "evidence").mkdir(exist_ok=True)
+        evdir = Path(os.environ.get("VERIF_EVIDENCE_DIR") or (ROOT / "evidence"))
+        evdir.mkdir(parents=True, exist_ok=True)
         (ROOT / "replays").mkdir(exist_ok=True)
         for k in self.kf:
             if k.get("status") == "open" and self.prop in k["properties"] and self.known_hits.get(k["id"]):
@@ -428,7 +429,7 @@ open Lean Elab Command in
             "wall_s": round(wall, 2),
             "violations": len(self.violations) + broken,
         }
-        (ROOT / "evidence" / f"{self.prop}.json").write_text(json.dumps(ev, indent=1))
+        (evdir / f"{self.prop}.json").write_text(json.dumps(ev, indent=1))
         self.say(f"[done] {self.prop} {self.tier}: evaluations={self.evals} nontrivial={len(self.nontrivial)} theorems={len(self.theorems)} "
                  f"broken={broken} violations={len(self.violations)} wall={wall:.1f}s")
         return 1 if status_violation else 0
@@ -729,6 +730,9 @@ def main():
         return replay(prop, sys.argv[3])
     tier = os.environ.get("VERIF_TIER") or sys.argv[2]
     tier = tier if tier in ("quick", "thorough") else sys.argv[2]
+    if tier not in ("quick", "thorough"):
+        print(f"usage: check <id> quick|thorough | --replay <file>   (unknown tier {tier!r})", file=sys.stderr)
+        return 2
     seed = int(os.environ.get("VERIF_SEED", "20260929"))
     return run_check(prop, tier, seed)
 
